@@ -16,11 +16,11 @@ PLAN = {
     "C03": dict(mc_q=[("flow2", 1, 4), ("rerun", 1, 4), ("flow2empty", 1, 3)],
                 mc_t=[("flow2", 1, 6), ("rerun", 1, 5), ("flow2empty", 1, 5), ("nest", 1, 4)],
                 gen_q=("plain,nest", 200), gen_t=("plain,nest,err", 4000)),
-    "C04": dict(mc_q=[("flowerr", 2, 3), ("nesterr", 2, 3), ("nilstart", 1, 3)],
-                mc_t=[("flowerr", 2, 5), ("nesterr", 2, 4), ("nilstart", 1, 4), ("single", 4, 4)],
+    "C04": dict(mc_q=[("flowerr", 2, 3), ("nesterr", 2, 3), ("nilstart", 1, 3), ("flowbatch", 2, 4)],
+                mc_t=[("flowerr", 2, 5), ("nesterr", 2, 4), ("nilstart", 1, 4), ("single", 4, 4), ("flowbatch", 2, 5)],
                 gen_q=("faultenum,err", 60), gen_t=("faultenum,err,nilstart", 800)),
-    "C05": dict(mc_q=[("singlecancel", 2, 4), ("flowcancel", 2, 3)],
-                mc_t=[("singlecancel", 3, 4), ("flowcancel", 2, 4)],
+    "C05": dict(mc_q=[("singlecancel", 2, 4), ("flowcancel", 2, 3), ("flowbatch", 2, 4)],
+                mc_t=[("singlecancel", 3, 4), ("flowcancel", 2, 4), ("flowbatch", 2, 5)],
                 gen_q=("cancelenum,cancel", 60), gen_t=("cancelenum,cancel", 800)),
     "C10": dict(mc_q=[("nest", 1, 3), ("nesterr", 2, 3)],
                 mc_t=[("nest", 1, 5), ("nest3", 1, 5), ("nesterr", 2, 4)],
@@ -28,7 +28,7 @@ PLAN = {
     "C17": dict(mc_q=[("single", 2, 4), ("singleeres", 2, 4), ("singlenil", 2, 4)],
                 mc_t=[("single", 3, 4), ("singleeres", 3, 4), ("singlenil", 3, 4), ("flow2empty", 1, 4)],
                 gen_q=("single,plain", 200), gen_t=("single,plain,err", 4000)),
-    "C18": dict(mc_q=[("single", 2, 4), ("flow2empty", 1, 4)],
+    "C18": dict(mc_q=[("single", 2, 4), ("flow2empty", 1, 4), ("flowbatch", 2, 4)],
                 mc_t=[("single", 3, 4), ("flow2empty", 1, 6), ("nest", 1, 4)],
                 gen_q=("single,plain,nest", 150), gen_t=("single,plain,nest", 3000)),
 }
@@ -86,11 +86,19 @@ def collect(pid, tier, seed, d, binp):
     log("judged %d histories (%d events): %d failing, %d drifting from the exported behaviour" %
         (summ.get("scenarios", 0), summ.get("events", 0), len(fails), len(drifts)))
 
+    # 3b. code -> spec: every recorded history must be explained by the operational specification
+    tv_n, tv_ok, tv_states, tv_trans = trace_validate(d, "TraceEngine", hist, shards=8)
+    states += tv_states
+    transitions += tv_trans
+    unexplained = tv_n - len(tv_ok)
+    log("trace validation against FlytEngine: %d of %d histories explained" % (len(tv_ok), tv_n))
+
     # 4. confirm every failure by re-executing its scenario on the real code, then classify
     violations, known_hits, unconfirmed = [], {}, 0
     if fails:
         scns = load_scenarios(hist)
-        bad_ids = sorted({f[0] for f in fails})
+        bad_ids = sorted({f[0] for f in fails if f[1] == pid})[:200]
+        fails = [f for f in fails if f[0] in set(bad_ids)]
         rp = os.path.join(d, "recheck.ndjson")
         with open(rp, "w") as f:
             for i in bad_ids:
@@ -125,9 +133,11 @@ def collect(pid, tier, seed, d, binp):
         pass
     for m in mc_info:
         m["spec"] = "FlytEngine"
+    mc_info.append({"spec": "TraceEngine (trace validation of recorded histories)", "histories": tv_n, "explained": len(tv_ok),
+                    "distinct_states": tv_states, "states_generated": tv_trans})
     return dict(states=states, transitions=transitions, scenarios=summ.get("scenarios", 0), events=summ.get("events", 0),
                 hits={k: v for k, v in summ.items() if k not in ("scenarios", "events")}, violations=violations, known_hits=known_hits,
-                drifts=len(drifts), mc_info=mc_info, samples=samples, exported=len(scn_lines), modes=modes, count=count)
+                drifts=len(drifts) + unexplained, mc_info=mc_info, samples=samples, exported=len(scn_lines), modes=modes, count=count)
 
 
 WITH_BATCH = {"C02", "C04", "C18"}
